@@ -28,6 +28,9 @@ int ifdef_ignore(AsmContext *asm_context)
   char token[TOKENLEN];
   int token_type;
   int nested_if = 0;
+  // One flag per conditional opened inside the skipped text: was its
+  // .else already seen?
+  uint8_t else_seen[MAX_NESTED_IFS + 1];
 
   while (1)
   {
@@ -56,13 +59,28 @@ int ifdef_ignore(AsmContext *asm_context)
       if (strcasecmp(token, "else") == 0)
       {
         if (nested_if == 0) { return 2; }
+
+        if (else_seen[nested_if] != 0)
+        {
+          print_error(asm_context, "Unexpected .else");
+          return -1;
+        }
+
+        else_seen[nested_if] = 1;
       }
         else
       if (strcasecmp(token, "if") == 0 ||
           strcasecmp(token, "ifdef") == 0 ||
           strcasecmp(token, "ifndef") == 0)
       {
+        if (nested_if >= MAX_NESTED_IFS)
+        {
+          print_error(asm_context, "Conditionals are nested too deep");
+          return -1;
+        }
+
         nested_if++;
+        else_seen[nested_if] = 0;
       }
     }
   }
